@@ -89,10 +89,12 @@ def resampleNpts (n : Nat) (factor : Rat) (even : Bool) : Except ErrKind Nat :=
     if k = 0 then .error .ZeroDivisionError
     else if k < 0 then .error .IndexError
     else .ok k.toNat
-  else if factor > 1 then
-    -- integer factor
+  else
+    -- `resample(asig.values, int(new_npts))` (fix F14-2: before it, a float `new_npts` — every `dt ≤ target_dt` with
+    -- `even=False` — raised `TypeError`)
     let k := truncZ (factor * (n : Rat))
-    if k = 0 then .error .ZeroDivisionError else .ok k.toNat
-  else .error .TypeError
+    if k = 0 then .error .ZeroDivisionError
+    else if k < 0 then .error .IndexError
+    else .ok k.toNat
 
 end EqsigVerif.Model.TimeStep
